@@ -43,6 +43,10 @@ func main() {
 		runC16(*tier, *seed, out)
 	case "C04", "C05":
 		runQueueCheck(id, *tier, *seed, out)
+	case "C19stress":
+		runC19stress(*tier, *seed, out)
+	case "C19":
+		out.emit(J{"k": "qmeta", "pid": "C19", "note": "C19 is decided by the sharing table and the stress stage"})
 	case "C04stress":
 		runC04stress(*tier, *seed, out)
 	case "C18":
